@@ -176,8 +176,14 @@ def h_roll(rp, l, o):
 
 
 def h_enlarge(rp, l, o):
-    hm.quiet(rp.psi.enlarge_mps_unit_cell, l['factor'])
-    return dict(sig=dict(factor=l['factor']))
+    psi = rp.psi
+    sig = dict(factor=l['factor'], stored_label_order_ok=all(B.get_leg_labels() == psi._B_labels for B in psi._B))
+    try:
+        hm.quiet(psi.enlarge_mps_unit_cell, l['factor'])
+    except Exception as e:  # an exception of the code under test is an observable result
+        rp.violation('enlarge_mps_unit_cell', 'exception', dict(error=repr(e)), error=type(e).__name__, **sig)
+        return False
+    return dict(sig=sig)
 
 
 def h_extract(rp, l, o):
